@@ -26,7 +26,25 @@ func extractC36(o *elib.Out) {
 				guard = true
 			}
 		}
-		o.Set("seg.guardUntruncated", anchor, fmt.Sprint(guard), cr != nil, "false")
+		// the watchdog half: observe() bails out while some pointer has Segment > 0 && SegmentIndex == 0
+		wdg := false
+		wdf := o.Load("wal/watchdog.go")
+		ob := wdf.Func("Watchdog.observe")
+		for _, c := range wdf.IfWithBodyContaining(body(ob), "return") {
+			if strings.Contains(c, "ptr.SegmentIndex == 0") {
+				wdg = true
+			}
+		}
+		v := "false"
+		switch {
+		case guard && wdg:
+			v = "true"
+		case guard:
+			v = "canRemoveOnly"
+		case wdg:
+			v = "watchdogOnly"
+		}
+		o.Set("seg.guardUntruncated", anchor+" + wal/watchdog.go:observe", v, cr != nil && ob != nil, "false")
 	}
 	mw := o.Load("metrics/wal.go")
 	ab := mw.Func("AnalyzeWALBacklog")
@@ -34,9 +52,28 @@ func extractC36(o *elib.Out) {
 		anchor := "metrics/wal.go:AnalyzeWALBacklog"
 		op, ok := mw.FindCmp(body(ab), "id", "retainSegment")
 		o.Set("seg.wdCandidateOp", anchor, op, ab != nil && ok, "lt")
-		src := mw.Src(ab)
-		flushed := strings.Contains(src, "LogSegment") || strings.Contains(src, "logSegment") || strings.Contains(src, "flushedSegment")
-		o.Set("seg.wdChecksFlushed", anchor, fmt.Sprint(flushed), ab != nil, "false")
+	}
+	// seg.wdChecksFlushed: the watchdog is told the manifest log pointer (WatchdogConfig.LogSegment,
+	// wired in db.go) and observe() keeps only candidates `id <= flushed`.
+	{
+		anchor := "wal/watchdog.go:observe + db.go:NewWatchdog"
+		wdf := o.Load("wal/watchdog.go")
+		ob := wdf.Func("Watchdog.observe")
+		op, ok := wdf.FindCmp(body(ob), "id", "flushed")
+		uses := ob != nil && strings.Contains(wdf.Src(ob), "w.logSegment(")
+		dbf := o.Load("db.go")
+		wired := false
+		if od := dbf.Func("Open"); od != nil {
+			wired = strings.Contains(dbf.Src(od), "LogSegment: func() uint32")
+		}
+		v := "false"
+		switch {
+		case uses && ok && op == "le" && wired:
+			v = "true"
+		case uses || wired:
+			v = "partial"
+		}
+		o.Set("seg.wdChecksFlushed", anchor, v, ob != nil, "false")
 	}
 	ws := o.Load("raftstore/engine/wal_storage.go")
 	op := ws.Func("OpenWALStorage")
@@ -183,10 +220,36 @@ func extractC36(o *elib.Out) {
 		uses := mt.HasCall(body(rc), "lsm.levels.canRemoveWalSegment")
 		o.Set("seg.recoveryRule", anchor, opr+":"+fmt.Sprint(uses), rc != nil && ok, "le:true")
 	}
+	// seg.flushRetries: the flush worker retries a failed levels.flush in place
+	// (`for err != nil … { … err = lsm.levels.flush(mt) }`) instead of releasing the task.
+	{
+		anchor := "lsm/lsm.go:startFlushWorkers"
+		lf := o.Load("lsm/lsm.go")
+		fw := lf.Func("LSM.startFlushWorkers")
+		retry, calls := false, 0
+		if fw != nil {
+			for _, c := range lf.Calls(fw.Body) {
+				if c == "lsm.levels.flush" {
+					calls++
+				}
+			}
+			ast.Inspect(fw.Body, func(n ast.Node) bool {
+				fs, ok := n.(*ast.ForStmt)
+				if !ok || fs.Cond == nil {
+					return true
+				}
+				if strings.Contains(lf.Src(fs.Cond), "err != nil") && lf.HasCall(fs.Body, "lsm.levels.flush") {
+					retry = true
+				}
+				return true
+			})
+		}
+		o.Set("seg.flushRetries", anchor, fmt.Sprint(retry), fw != nil && calls >= 1, "false")
+	}
 }
 
 func leanC36(f map[string]string) string {
 	return fmt.Sprintf(`def segCfg : Seg.SCfg :=
-  { guardUntruncated := %s, wdChecksFlushed := %s, replaySeedsTrunc := %s }
-`, f["seg.guardUntruncated"], f["seg.wdChecksFlushed"], f["seg.replaySeedsTrunc"])
+  { guardUntruncated := %s, wdChecksFlushed := %s, flushRetries := %s, replaySeedsTrunc := %s }
+`, f["seg.guardUntruncated"], f["seg.wdChecksFlushed"], f["seg.flushRetries"], f["seg.replaySeedsTrunc"])
 }
